@@ -24,6 +24,8 @@ pub fn length_and_forbidden_names() -> Vec<String> {
     for n in 1..=40usize {
         v.push("x".repeat(n));
         v.push("\u{e9}".repeat(n));
+        // three UTF-8 bytes per UTF-16 unit
+        v.push("\u{8cc7}".repeat(n));
         // 'a' + m emoji: 1 + 2m units; and without the 'a': 2m units
         if n % 2 == 1 {
             v.push(format!("a{}", "\u{1f600}".repeat((n - 1) / 2)));
@@ -122,7 +124,9 @@ pub fn validity(ctx: &Ctx, version: u16) -> NStats {
     let mut names = base_names();
     names.extend(length_and_forbidden_names());
     for n in &names {
-        for (seed, prefix) in [("fresh", "/"), ("d1", "/g0_0/")] {
+        // also on a file whose directory sectors are exactly full (a new entry needs a new directory sector)
+        let full = if version == 3 { "s3x0" } else { "s31x0" };
+        for (seed, prefix) in [("fresh", "/"), ("d1", "/g0_0/"), (full, "/")] {
             for op in creators(&format!("{}{}", prefix, n)) {
                 hists.push(History { version, seed: seed.into(), ops: vec![op], reopen_after: vec![false] });
             }
